@@ -50,7 +50,7 @@ CHECKS = {
                 "3-10 batches of 48-160 concurrent hostile connections from distinct 127.x.y.z sources (pre-login garbage, truncated "
                 "and corrupted handshakes / logins, post-login transactions of 51 types with random fields and corrupted length "
                 "fields, count-amplification paths, transfer-port garbage, claimed transfers broken off, uploads declaring up to "
-                "1 MiB); observed: exit status of the process, every sentinel probe answered within 2 s, registry and the three "
+                "1 MiB); observed: exit status of the process, every sentinel probe answered within 5 s, registry and the three "
                 "counters at quiescence.",
         "note": "Two defects found and repaired: unlocked rate-limiter map aborts the process (01776e6), path item-count amplification "
                 "keeps a handler spinning for a minute (c1db222). What no model here exhibits: fairness, memory exhaustion, blocked "
